@@ -137,6 +137,13 @@ fn gen_sep(rng: &mut Rng, comments: bool) -> Vec<u8> {
                 s.push(*rng.pick(&WS));
             }
             s.push(b'#');
+            if rng.chance(1, 12) {
+                // a comment longer than any line or chunk buffer a decoder might use
+                let n = *rng.pick(&[200usize, 300, 1100, 4200, 9000]);
+                s.extend((0..n).map(|i| b"comment 255 # "[i % 14]));
+                s.push(b'\n');
+                continue;
+            }
             let body: &[u8] = *rng.pick(&[
                 &b""[..],
                 b" comment",
@@ -195,6 +202,7 @@ fn gen_foreign(rng: &mut Rng) -> Foreign {
         pre_raster: if rng.chance(1, 2) { b'\n' } else { *rng.pick(&WS) },
         sample_seps,
         trailing: if rng.chance(1, 2) { String::new() } else { (0..rng.usize(1, 3)).map(|_| *rng.pick(&WS) as char).collect() },
+        zero_pad: if rng.chance(1, 8) { (0..rng.usize(1, 4)).map(|_| *rng.pick(&[0u8, 0, 2, 3, 4, 9, 10, 11, 12])).collect() } else { vec![] },
     }
 }
 
@@ -225,6 +233,30 @@ fn gen_odd_header(rng: &mut Rng) -> Vec<u8> {
 /// Canonical size of what `write_ppm` is expected to emit for an image.
 fn p6_len(w: u32, h: u32) -> usize {
     format!("P6 {w} {h} 255\n").len() + 3 * (w as usize) * (h as usize)
+}
+
+/// Jumbo scenario: an image with a dimension above 65 535 (or 300x300), written by the
+/// real encoder through a benign sink and read back through a benign source.
+pub fn gen_jumbo(seed: u64) -> (PnmScenario, &'static str, Option<String>) {
+    let mut rng = Rng::new(seed);
+    let (bw, bh) = *rng.pick(&[(65_537u32, 1u32), (1, 65_540), (70_001, 2), (300, 300), (3, 66_000)]);
+    let li = LibImage { bw, bh, pixels: Pix::Seeded(rng.u64()), view: if rng.chance(1, 2) { View::Ref } else { View::Slice(RectU { x: 0, y: 0, w: bw, h: bh }) } };
+    let len = p6_len(bw, bh);
+    let mut writer = gen_writer_benign(&mut rng, len);
+    let mut reader = gen_reader_benign(&mut rng, len);
+    if writer.chunks.iter().all(|&c| c != 0 && c < 64) {
+        writer.chunks = vec![4096, 1000, 0, 7];
+    }
+    if reader.chunks.iter().all(|&c| c != 0 && c < 64) {
+        reader.chunks = vec![4096, 1000, 0, 7];
+    }
+    if let WStack::Buf { cap, .. } = &mut writer.stack {
+        *cap = (*cap).max(512);
+    }
+    if let RStack::Buf { cap, .. } | RStack::ChainBuf { cap, .. } = &mut reader.stack {
+        *cap = (*cap).max(512);
+    }
+    (PnmScenario { work: PnmWork::Lib(li), writer, disk: vec![], reader }, "search:jumbo", None)
 }
 
 pub fn gen_scenario(seed: u64) -> (PnmScenario, &'static str, Option<String>) {
@@ -459,6 +491,9 @@ pub fn run(scn: &PnmScenario, record: bool) -> RunResult {
                     rr.oracle("T", true);
                     let acked = wres.is_ok() && !matches!(flush, Some(Err(_)));
                     let hostile = led.write_destructive() > 0;
+                    // An adapter handed over by value flushes in its `Drop`, after the
+                    // library's last chance to see an error; std discards that error.
+                    let by_value_adapter = matches!(scn.writer.stack, WStack::Buf { by_ref: false, .. } | WStack::Line { by_ref: false });
                     if w == 0 || h == 0 {
                         rr.probe("zero-area image written");
                     }
@@ -481,8 +516,13 @@ pub fn run(scn: &PnmScenario, record: bool) -> RunResult {
                     } else {
                         rr.probe("write error reported to the caller");
                     }
-                    if acked && !hostile {
-                        // A: acknowledged means stored, as this very image
+                    if acked && hostile && !by_value_adapter {
+                        rr.probe("write error fired where the library could see it, yet Ok was returned (A applied)");
+                    }
+                    if acked && !(hostile && by_value_adapter) {
+                        // A: acknowledged means stored, as this very image. This includes
+                        // runs in which an error fired where the library could see it and
+                        // it answered Ok all the same.
                         let enc = is_p6_encoding_of(&bytes, w, h, &px);
                         let dec = decode_plain(&bytes);
                         let want = PnmOut::Ok { w, h, px: px.clone() };
@@ -582,7 +622,11 @@ pub fn run(scn: &PnmScenario, record: bool) -> RunResult {
         match (&refv.header, &refv.body) {
             (Some(hd), RefBody::Rgb(px)) => {
                 let want = PnmOut::Ok { w: hd.w, h: hd.h, px: px.clone() };
-                let d = diff(out, &want);
+                let mut d = diff(out, &want);
+                if refv.soft && d == "err-vs-ok" {
+                    rr.probe("soft acceptance: decoder refused a zero-padded / over-long but unambiguous file (tolerated)");
+                    d = "equal";
+                }
                 rr.oracle("X", d == "equal");
                 if d != "equal" {
                     rr.violate(Violation::new("X", d, format!("parse_pnm on a well-formed P{} file: got {}, reference says {}", hd.fmt, out.brief(), want.brief())));
@@ -590,7 +634,8 @@ pub fn run(scn: &PnmScenario, record: bool) -> RunResult {
             }
             (Some(hd), RefBody::Grey(g)) => {
                 // mapping grey -> RGB is not pinned by C13: dimensions and count only
-                let ok = matches!(out, PnmOut::Ok { w, h, px } if (*w, *h) == (hd.w, hd.h) && px.len() == g.len());
+                let ok = matches!(out, PnmOut::Ok { w, h, px } if (*w, *h) == (hd.w, hd.h) && px.len() == g.len())
+                    || (refv.soft && matches!(out, PnmOut::Err(_)));
                 rr.oracle("X", ok);
                 if !ok {
                     rr.violate(Violation::new("X", "grey-shape", format!("parse_pnm on a well-formed P{} file of {}x{}: got {}", hd.fmt, hd.w, hd.h, out.brief())));
@@ -628,6 +673,28 @@ pub fn run(scn: &PnmScenario, record: bool) -> RunResult {
                         ),
                     ));
                 }
+            }
+        }
+    }
+
+    // F: a failing stream may cost the result, never falsify it. If the file on disk
+    // is well-formed and the plain decode of it is right (X), then after a read error
+    // the streamed decode answers with an error or with that very image.
+    if rd_err > 0 && !matches!(refv.body, RefBody::Unsure(_)) {
+        if let (Some(b @ PnmOut::Ok { .. }), Some(sout)) = (&base_out, &streamed_out) {
+            let ok = matches!(sout, PnmOut::Err(_)) || sout == b;
+            rr.oracle("F", ok);
+            if !ok {
+                rr.violate(Violation::new(
+                    "F",
+                    format!("wrong-image-after-read-error:{}", diff(sout, b)),
+                    format!(
+                        "the source failed with an I/O error after {delivered} of {} bytes of a well-formed file, and read_pnm answered {} instead of an error (the file holds {})",
+                        bytes.len(),
+                        sout.brief(),
+                        b.brief()
+                    ),
+                ));
             }
         }
     }
@@ -796,6 +863,35 @@ pub fn shrink(s: &PnmScenario) -> Vec<PnmScenario> {
                 }
                 out.push(with(LibImage { bw, bh, pixels: li.pixels.clone(), view }));
             }
+            if let View::SliceNew { w, h, stride, offset } = li.view {
+                let mut c = vec![];
+                if offset > 0 {
+                    c.push(View::SliceNew { w, h, stride, offset: 0 });
+                }
+                if h > 1 {
+                    c.push(View::SliceNew { w, h: h / 2, stride, offset });
+                    c.push(View::SliceNew { w, h: h - 1, stride, offset });
+                }
+                if w > 1 {
+                    c.push(View::SliceNew { w: w / 2, h, stride, offset });
+                    c.push(View::SliceNew { w: w - 1, h, stride, offset });
+                }
+                if stride > w {
+                    c.push(View::SliceNew { w, h, stride: w, offset });
+                }
+                for v in c {
+                    out.push(with(LibImage { view: v, ..li.clone() }));
+                }
+                // less surplus backing data
+                if let View::SliceNew { w, h, stride, offset } = li.view {
+                    let need = offset + if h == 0 { 0 } else { (h - 1) * stride + w };
+                    for bh in [li.bh / 2, li.bh.saturating_sub(1)] {
+                        if bh < li.bh && li.bw * bh >= need.max(1) {
+                            out.push(with(LibImage { bh, ..li.clone() }));
+                        }
+                    }
+                }
+            }
             // move the view to the origin
             match li.view {
                 View::Slice(r) if r.x + r.y > 0 => out.push(with(LibImage { view: View::Slice(RectU { x: 0, y: 0, ..r }), ..li.clone() })),
@@ -835,6 +931,9 @@ pub fn shrink(s: &PnmScenario) -> Vec<PnmScenario> {
             if f.max != 255 {
                 out.push(with(Foreign { max: 255, ..f.clone() }));
             }
+            if !f.zero_pad.is_empty() {
+                out.push(with(Foreign { zero_pad: vec![], ..f.clone() }));
+            }
             // freeze into raw bytes so that byte-level shrinking can take over
             out.push(PnmScenario { work: PnmWork::Raw { bytes: f.render() }, ..s.clone() });
         }
@@ -848,7 +947,12 @@ pub fn shrink(s: &PnmScenario) -> Vec<PnmScenario> {
                     let a = end - width;
                     let mut t = bytes[..a].to_vec();
                     t.extend_from_slice(&bytes[end..]);
-                    out.push(PnmScenario { work: PnmWork::Raw { bytes: t }, ..s.clone() });
+                    out.push(PnmScenario {
+                        work: PnmWork::Raw { bytes: t },
+                        writer: s.writer.clone(),
+                        disk: crate::obj::shift_faults(&s.disk, a, end),
+                        reader: crate::obj::shift_reader(&s.reader, a, end),
+                    });
                     end -= width;
                     if out.len() > 400 {
                         break;
@@ -878,7 +982,7 @@ pub fn sweep_base(seed: u64) -> crate::sweep::SweepBase {
             let f = Foreign {
                 fmt: 6, w, h, max: 255, pixels: gen_pix(&mut rng),
                 sep0: b" ".to_vec(), sep1: b" ".to_vec(), sep2: b" ".to_vec(),
-                pre_raster: b'\n', sample_seps: vec![], trailing: String::new(),
+                pre_raster: b'\n', sample_seps: vec![], trailing: String::new(), zero_pad: vec![],
             };
             let hl = f.header_len();
             (f.render(), (0..h as usize).map(|y| (hl + y * 3 * w as usize, 3 * w as usize)).collect::<Vec<_>>())
